@@ -66,6 +66,8 @@ def execute(program):
     pre = len(w.log), len(w.root)
     w.root.stop()          # stop() on a manager that is not running
     w.notrunning = [(pre, (len(w.log), len(w.root)))]
+    w.stray = []
+    stray_stop(w, 7)       # ... also with an exit code: no effect now and none on the next run()
     marks = []
     for cycle in range(2):
         w.iterations = 0
@@ -84,7 +86,18 @@ def execute(program):
         w.notrunning.append((pre, (len(w.log), len(w.root))))
         for _ in range(3):
             w.root.tick()
+        stray_stop(w, 9)
     return w, marks
+
+
+def stray_stop(w, code):
+    pre = len(w.log), len(w.root)
+    try:
+        w.root.stop(code)
+        res = 'return'
+    except BaseException as exc:  # noqa: BLE001
+        res = 'raised %s(%r)' % (type(exc).__name__, getattr(exc, 'code', None))
+    w.stray.append((code, res, pre, (len(w.log), len(w.root))))
 
 
 def judge(program, w, marks):
@@ -93,6 +106,9 @@ def judge(program, w, marks):
     for pre, post in w.notrunning:
         if pre != post:
             bad.append(('stop-not-running', 'stop() on a stopped manager changed log/queue: %r -> %r' % (pre, post)))
+    for code, res, pre, post in w.stray:
+        if res != 'return' or pre != post:
+            bad.append(('stop-not-running', 'stop(%r) on a stopped manager: %s, log/queue %r -> %r' % (code, res, pre, post)))
     for cyc, (a, b, res, qlen, by_driver) in enumerate(marks):
         seg = w.log[a:b]
         tag = 'cycle%d:' % (cyc + 1)
